@@ -280,16 +280,16 @@ class Check(PropertyCheck):
                   "whole table + general lemmas): every historical version key reaches the current format in a strictly "
                   "version-increasing chain (the migrate loop terminates from every version value whatsoever), the current "
                   "version is a fixed point, unknown versions are rejected with 'please update' exactly for larger "
-                  "integers. The field surgery of the sixteen converters for integer formats 5..20 is modelled over the tnetstring value type of C36 (Model/C38_Conv.lean) and proved to write exactly the next version (conv_writes_next_version), to leave every top-level key outside a stated per-converter set untouched (conv_frame; request/id/type/error/intercepted never change: request_preserved; response only by 13->14), plus marked_migration, mode_dropped, proxy_mode_added, state_dropped, timestamp_created_from_request; the older formats 5..9 (convOld: ssl->tls renames, tls_extensions, trailers, first_line_format/authority/is_replay, the 9->10 connection rebuild incl. the nested via connection) with convOld_writes_next_version, convOld_frame, old_identity_preserved, old_request_preserved (only 7->8 and 8->9 touch the request), request_fields_8_9, trailers_added_7_8, tls_renamed_5_6; 18->19 (renames, defaults, the UTF-8/backslashreplace decode of host bytes built on the C35 decoder transcription, sni=True repair) with conv_18_19_spec, client_frame_18_19/client_renames_18_19, server_frame_18_19/server_renames_18_19, host_decode_valid_utf8/host_decode_ascii (a valid-UTF-8 host is the same text afterwards) and host_decode_escape; the two converters with PROCESS-GLOBAL tables are modelled with their tables as explicit state (Model/C38_State.lean): 11->12 with `_websocket_handshakes` (handshake_stored, ws_takes_stored_handshake, ws_without_handshake_dummy, plain_is_stateless, table_frame_11_12 and, by induction over any run of records, stored_until_consumed) and 4->5 with the connection-id tables and the uuid supply as a parameter (client_id_is_recorded_id, ids_stable_4_5, ids_stable_over_run); the release-numbered formats 0.17..3.0 (Model/C38_Tuple.lean: convert_unicode with its recursive key conversion and strict UTF-8 decode of type/id/first_line_format/error.msg, the address unwrapping of 1.0->2.0, 2.0->3.0, 3.0->4) with tuple_writes_next_version and tuple_frame_1_2_3, and the six oldest formats 0.11..0.16 over bytes keys (Model/C38_Bytes.lean: form_in/httpversion/code/content renames, body/msg renames, peer_address) with bytes_writes_next_version and bytes_frame - so EVERY converter registered in compat.converters (29) has a Lean transcription compared step by step with the real one; the whole modelled chain 12->21 keeps the request and arrives at version 21 (steps_request_preserved by induction over any number of converter steps, chain_request_preserved); each step of the real converters is compared byte for byte (re-encoded tnetstring) with the Lean converter. Whole-chain behaviour is validated differentially: all shipped historical dumps, "
+                  "integers. The field surgery of the sixteen converters for integer formats 5..20 is modelled over the tnetstring value type of C36 (Model/C38_Conv.lean) and proved to write exactly the next version (conv_writes_next_version), to leave every top-level key outside a stated per-converter set untouched (conv_frame; request/id/type/error/intercepted never change: request_preserved; response only by 13->14), plus marked_migration, mode_dropped, proxy_mode_added, state_dropped, timestamp_created_from_request; the older formats 5..9 (convOld: ssl->tls renames, tls_extensions, trailers, first_line_format/authority/is_replay, the 9->10 connection rebuild incl. the nested via connection) with convOld_writes_next_version, convOld_frame, old_identity_preserved, old_request_preserved (only 7->8 and 8->9 touch the request), request_fields_8_9, trailers_added_7_8, tls_renamed_5_6; 18->19 (renames, defaults, the UTF-8/backslashreplace decode of host bytes built on the C35 decoder transcription, sni=True repair) with conv_18_19_spec, client_frame_18_19/client_renames_18_19, server_frame_18_19/server_renames_18_19, host_decode_valid_utf8/host_decode_ascii (a valid-UTF-8 host is the same text afterwards) and host_decode_escape; the two converters with PROCESS-GLOBAL tables are modelled with their tables as explicit state (Model/C38_State.lean): 11->12 with `_websocket_handshakes` (handshake_stored, ws_takes_stored_handshake, ws_without_handshake_dummy, plain_is_stateless, table_frame_11_12 and, by induction over any run of records, stored_until_consumed) and 4->5 with the connection-id tables and the uuid supply as a parameter (client_id_is_recorded_id, ids_stable_4_5, ids_stable_over_run); the release-numbered formats 0.17..3.0 (Model/C38_Tuple.lean: convert_unicode with its recursive key conversion and strict UTF-8 decode of type/id/first_line_format/error.msg, the address unwrapping of 1.0->2.0, 2.0->3.0, 3.0->4) with tuple_writes_next_version and tuple_frame_1_2_3, and the six oldest formats 0.11..0.16 over bytes keys (Model/C38_Bytes.lean: form_in/httpversion/code/content renames, body/msg renames, peer_address) with bytes_writes_next_version and bytes_frame - so EVERY converter registered in compat.converters (29) has a Lean transcription compared step by step with the real one; `migrate_flow` as a whole is composed from these transcriptions (Model/C38_Migrate.lean: version lookup under b"version"/"version", tuple cut, the stale-version refusal, the stateful tables threaded through) with every_registered_converter_is_modelled / no_extra_converter (the model's dispatch is exactly the converter table REGENERATED from compat.py: a converter added without a transcription breaks the proof), migrate_ends_at_current, migrate_current_unchanged, and is compared byte for byte (kind migfile) with the real migrate_flow on every record of every shipped dump, in file order and in other admissible orders, and on every downgrade case; the whole modelled chain 12->21 keeps the request and arrives at version 21 (steps_request_preserved by induction over any number of converter steps, chain_request_preserved); each step of the real converters is compared byte for byte (re-encoded tnetstring) with the Lean converter. Whole-chain behaviour is validated differentially: all shipped historical dumps, "
                   "synthetic states downgraded by inverse converters to each version 10..20, current states, and unknown "
                   "future versions go through the real migrate_flow / FlowReader / FlowWriter.")
-    level_note = ("partial: proved are the version chain, the loop and the per-converter field facts for formats 4..20 (4->5: uuid4 is a parameter, table keys are compared through their tnetstring encoding "
+    level_note = ("partial: proved are the version chain, the loop and the per-converter field facts for formats 4..20 (4->5: uuid4 is a parameter; 13->14: `float + 1` with Python's repr is a parameter answered by the harness; table keys are compared through their tnetstring encoding "
                   "- an int and an equal float would differ - and only list-valued addresses are generated: what format 4 wrote for an unconnected server is not known here; 13->14 timestamp repair only for integer timestamps); str() of non-int httpversion items in 0.13->0.14 is not modelled (not generated); whole-chain behaviour from the tuple formats is "
                   "validated (goldens for shipped dumps, inverse-converter "
                   "round trips for versions 10..20). "
                   "trusted: Lean kernel, the AST-based translator (reads `data[\"version\"] = …` in each converter).")
     technique = "Lean 4 proof over a table regenerated from the source (decide +kernel + lemmas) + differential migration runs"
-    rule = ("kinds: wsseq (a run of format-11 records - handshake flows, old websocket flows naming a handshake id, plain flows - through the real convert_11_12 in one process vs the Lean converter with its table, expectations from the roles/ids alone), convt (one release-numbered converter step 0.17..3.0 vs the Lean converter, incl. py2-era bytes keys and undecodable text), idseq (a run of format-4 records of a few connections through convert_4_5 with uuid4 replaced by a counter), dumpsplit (a shipped multi-record dump spread over two files read in sequence, optionally another file in between), dumpperm (records of a shipped multi-record dump in another admissible order load as the same flows), conv (one converter step vs the Lean converter), dump (each shipped dumpfile: load, validity, re-save/re-load equality, golden digest), current (random "
+    rule = ("kinds: migfile (every record of a shipped dump through the real migrate_flow with uuid4 replaced by a counter vs the composed Lean migrate_flow, tables carried across records), wsseq (a run of format-11 records - handshake flows, old websocket flows naming a handshake id, plain flows - through the real convert_11_12 in one process vs the Lean converter with its table, expectations from the roles/ids alone), convt (one release-numbered converter step 0.17..3.0 vs the Lean converter, incl. py2-era bytes keys and undecodable text), idseq (a run of format-4 records of a few connections through convert_4_5 with uuid4 replaced by a counter), dumpsplit (a shipped multi-record dump spread over two files read in sequence, optionally another file in between), dumpperm (records of a shipped multi-record dump in another admissible order load as the same flows), conv (one converter step vs the Lean converter), dump (each shipped dumpfile: load, validity, re-save/re-load equality, golden digest), current (random "
             "current-format flows must pass migration unchanged), downgrade (random current flow restricted to what version v "
             "could express, inverse-converted down to v in 10..20, migrated forward, compared), future (unknown versions). "
             "distinct = distinct (kind, parameters); non-trivial = kind != dump-metadata-only.")
@@ -368,6 +368,12 @@ class Check(PropertyCheck):
                 yield {"kind": "dumpsplit", "file": os.path.relpath(p, REPO), "cut": cut, "between": None}
                 o_ = others_of(p)
                 yield {"kind": "dumpsplit", "file": os.path.relpath(p, REPO), "cut": cut, "between": o_[cut % len(o_)]}
+        # the WHOLE migrate_flow on every record of every shipped dump, in file order and in other admissible orders, vs the composed Lean model
+        for p in self._dumps():
+            yield {"kind": "migfile", "file": os.path.relpath(p, REPO), "perm_seed": None}
+        for p in multi:
+            for i in range(3):
+                yield {"kind": "migfile", "file": os.path.relpath(p, REPO), "perm_seed": i}
         st0 = canon_in(tflow.tflow(resp=True).get_state())
         # a flow without a destination, as formats 10..18 recorded it (server address None, sni True): fixed entry in known/C38.json
         f0 = tflow.tflow(resp=False, err=True); f0.server_conn.address = None; f0.server_conn.sni = None
@@ -520,35 +526,18 @@ class Check(PropertyCheck):
             out = compat.migrate_flow(copy.deepcopy(st))
             return {"unchanged": canon(out) == canon(st)}
         if k == "downgrade":
-            st = restrict_for(canon_out(case["state"]), case["to"])
-            # the restricted state must itself be a valid current state
-            orig = mflow.Flow.from_state(copy.deepcopy(st)).get_state()
-            old = copy.deepcopy(orig)
-            for v in range(version.FLOW_FORMAT_VERSION, case["to"], -1):
-                if v not in INVERSES: raise Skip()
-                INVERSES[v](old)
-            assert old["version"] == case["to"]
-            if case.get("mode") is not None and "mode" in old:
-                old["mode"] = case["mode"]      # what the old release recorded as its proxy mode; today's flows do not keep it
-            variant = case.get("variant")
-            if variant == "sni-bytes" and case["to"] <= 10:
-                # format <= 10 stored the SNI as raw bytes, which need not be ASCII
-                old["client_conn"]["sni"] = bytes.fromhex(case["sni_hex"])
-                old["server_conn"]["sni"] = bytes.fromhex(case["sni_hex"])[::-1]
-            elif variant == "sni-auto" and case["to"] <= 18:
-                # formats 10..18 stored sni=True on a server connection for "use the server address" (what a connection that
-                # never started TLS kept): applicable when today's sni is exactly that — the address host, or None without an address
-                a_ = orig["server_conn"].get("address")
-                if orig["server_conn"].get("sni") != (a_[0] if a_ else None): raise Skip()
-                old["server_conn"]["sni"] = True
-            else:
-                variant = None
+            orig, old, variant = self._downgrade_old(case)
+            # the bare migrate_flow on the record (for the tie with the composed Lean model)
+            compat._websocket_handshakes.clear()
+            try: mig_out = "ok " + tnetstring.dumps(compat.migrate_flow(tnetstring.loads(tnetstring.dumps(old)))).hex()
+            except Exception: mig_out = "none"
+            finally: compat._websocket_handshakes.clear()
             # through the real file path: write the old state as a tnetstring record, read with FlowReader
             buf = _io.BytesIO(tnetstring.dumps(old))
             try:
                 got = [f.get_state() for f in mio.FlowReader(buf).stream()]
             except exceptions.FlowReadException as e:
-                return {"error": str(e)[:200]}
+                return {"error": str(e)[:200], "mig_out": mig_out}
             if variant == "sni-bytes":
                 # the only intended difference: format <= 10 stored raw bytes, which read as ASCII with \xNN for the rest
                 orig["client_conn"]["sni"] = bytes.fromhex(case["sni_hex"]).decode("ascii", "backslashreplace")
@@ -564,9 +553,11 @@ class Check(PropertyCheck):
                 if canon(again) != canon(got): resave = "differs"
             except Exception as e:
                 resave = f"{type(e).__name__}: {e}"[:160]
-            return {"equal": not diff, "diff": diff[:6], "resave": resave}
+            return {"equal": not diff, "diff": diff[:6], "resave": resave, "mig_out": mig_out}
         if k in ("wsseq", "idseq"):
             return {"steps": self._run_tables(case)}
+        if k == "migfile":
+            return {"steps": self._run_migfile(case)}
         if k == "convt":
             old2, wire = self._convt_input(case)
             try:
@@ -612,6 +603,61 @@ class Check(PropertyCheck):
                 rr = "flowread"
             return {"migrate": r, "reader": rr}
         raise Skip()
+
+    def _mig_records(self, case):
+        recs = split_records(open(os.path.join(REPO, case["file"]), "rb").read())
+        if case.get("perm_seed") is not None:
+            recs = [recs[i] for i in interleaving(recs, case["perm_seed"])]
+        return recs
+
+    def _run_migfile(self, case):
+        compat._websocket_handshakes.clear(); compat.client_connections.clear(); compat.server_connections.clear()
+        class _U:
+            n = 0
+            def uuid4(self_):
+                v = "uuid-%d" % _U.n; _U.n += 1
+                return v
+        real = compat.uuid
+        compat.uuid = _U()
+        outs = []
+        try:
+            for raw in self._mig_records(case):
+                try:
+                    o = compat.migrate_flow(tnetstring.loads(raw))
+                except Exception as e:
+                    outs.append({"out": None, "exc": f"{type(e).__name__}: {e}"[:160]}); continue
+                outs.append({"out": tnetstring.dumps(o).hex(), "tbl": len(compat._websocket_handshakes), "version": o.get("version")})
+        finally:
+            compat.uuid = real
+            compat._websocket_handshakes.clear(); compat.client_connections.clear(); compat.server_connections.clear()
+        return outs
+
+    def _downgrade_old(self, case):
+        """(the current state the case stands for, the same flow as format `to` stored it, the variant applied)"""
+        st = restrict_for(canon_out(case["state"]), case["to"])
+        # the restricted state must itself be a valid current state
+        orig = mflow.Flow.from_state(copy.deepcopy(st)).get_state()
+        old = copy.deepcopy(orig)
+        for v in range(version.FLOW_FORMAT_VERSION, case["to"], -1):
+            if v not in INVERSES: raise Skip()
+            INVERSES[v](old)
+        assert old["version"] == case["to"]
+        if case.get("mode") is not None and "mode" in old:
+            old["mode"] = case["mode"]      # what the old release recorded as its proxy mode; today's flows do not keep it
+        variant = case.get("variant")
+        if variant == "sni-bytes" and case["to"] <= 10:
+            # format <= 10 stored the SNI as raw bytes, which need not be ASCII
+            old["client_conn"]["sni"] = bytes.fromhex(case["sni_hex"])
+            old["server_conn"]["sni"] = bytes.fromhex(case["sni_hex"])[::-1]
+        elif variant == "sni-auto" and case["to"] <= 18:
+            # formats 10..18 stored sni=True on a server connection for "use the server address" (what a connection that
+            # never started TLS kept): applicable when today's sni is exactly that — the address host, or None without an address
+            a_ = orig["server_conn"].get("address")
+            if orig["server_conn"].get("sni") != (a_[0] if a_ else None): raise Skip()
+            old["server_conn"]["sni"] = True
+        else:
+            variant = None
+        return orig, old, variant
 
     def _ws_records(self, case):
         """format-11 records: handshake flows (metadata.websocket), old-style websocket flows naming a handshake id, plain flows"""
@@ -885,6 +931,11 @@ class Check(PropertyCheck):
                 if obs["version"] != want: fails.append(f"converter {case['v']} wrote version {obs['version']}, expected {want}")
                 if tuple(case["v"]) in ((0, 17), (0, 18), (0, 19)) and not obs["str_keys"]:
                     fails.append(f"converter {case['v']} left a bytes key at top level")
+        elif k == "migfile":
+            # migrate_ends_at_current, asked of the real loop: a record either raises or comes out at the current version
+            for i, o in enumerate(obs["steps"]):
+                if o["out"] is not None and o["version"] != cur:
+                    fails.append(f"{case['file']} record {i}: migrate_flow returned version {o['version']}")
         elif k == "wsseq":
             # an old recording keeps a websocket connection as a handshake flow plus a message flow naming it: loaded, the
             # messages belong to THAT handshake flow (expectation computed from the case's roles/ids alone)
@@ -941,7 +992,11 @@ class Check(PropertyCheck):
             v = case["version"]
             return ["mig " + ("int %d" % v if isinstance(v, int) else "tup %d %d" % (v[0], v[1]))]
         if case["kind"] == "downgrade":
-            return ["mig int %d" % case["to"], "steps int %d" % case["to"]]
+            try: _, old, _ = self._downgrade_old(case)
+            except Skip: return None
+            te = (old.get("request") or {}).get("timestamp_end")
+            fl = ["fadd %s %s" % (repr(te).encode().hex(), repr(te + 1).encode().hex())] if isinstance(te, float) else []
+            return ["mig int %d" % case["to"], "steps int %d" % case["to"], "tables-reset"] + fl + ["migrate %s" % tnetstring.dumps(old).hex()]
         if case["kind"] == "conv":
             try: _, wire = self._conv_input(case)
             except Skip: return None
@@ -950,6 +1005,17 @@ class Check(PropertyCheck):
             try: _, wire = self._convt_input(case)
             except Skip: return None
             return ["convt %d %d %s" % (case["v"][0], case["v"][1], wire.hex() or "-")]
+        if case["kind"] == "migfile":
+            lines = ["tables-reset"]; seen = set()
+            for raw in self._mig_records(case):
+                # library answer for 13->14's `timestamp_end + 1` on a float (Python double arithmetic + repr): handed to the model
+                d_ = tnetstring.loads(raw)
+                rq = d_.get("request", d_.get(b"request"))
+                te = rq.get("timestamp_end", rq.get(b"timestamp_end")) if isinstance(rq, dict) else None
+                if isinstance(te, float) and te not in seen:
+                    seen.add(te); lines.append("fadd %s %s" % (repr(te).encode().hex(), repr(te + 1).encode().hex()))
+                lines.append("migrate %s" % raw.hex())
+            return lines
         if case["kind"] in ("wsseq", "idseq"):
             try: recs = self._ws_records(case) if case["kind"] == "wsseq" else self._id_records(case)
             except Skip: return None
@@ -961,8 +1027,9 @@ class Check(PropertyCheck):
 
     def model_obs(self, case, replies):
         if case["kind"] == "future": return replies[0]
-        if case["kind"] == "downgrade": return replies
+        if case["kind"] == "downgrade": return replies[:2] + [" ".join(replies[-1].split()[:2])]     # the table size is not compared here
         if case["kind"] in ("conv", "convt"): return replies[0]
+        if case["kind"] == "migfile": return [r for r in replies[1:] if r != "ok"]     # drop the acknowledgements of `fadd` lines
         if case["kind"] in ("wsseq", "idseq"):
             out = []
             for r in replies[1:]:
@@ -980,10 +1047,10 @@ class Check(PropertyCheck):
             known = (tuple(v)[:2] if isinstance(v, list) else v) in compat.converters or v == version.FLOW_FORMAT_VERSION
             return "ok" if (known and obs["migrate"] == "ok") else {"update": "errUpdate", "unknown": "errUnknown", "ok": "ok"}[obs["migrate"]]
         if case["kind"] == "downgrade":
-            return ["ok", str(version.FLOW_FORMAT_VERSION - case["to"])] if "error" not in obs else ["err", "?"]
+            return (["ok", str(version.FLOW_FORMAT_VERSION - case["to"])] if "error" not in obs else ["err", "?"]) + [obs["mig_out"]]
         if case["kind"] in ("conv", "convt"):
             return "none" if obs["out"] is None else "ok " + obs["out"]
-        if case["kind"] == "wsseq":
+        if case["kind"] in ("wsseq", "migfile"):
             return ["none" if o["out"] is None else "ok %s %d" % (o["out"], o["tbl"]) for o in obs["steps"]]
         if case["kind"] == "idseq":
             return ["none" if o["out"] is None else "ok %s %d %d %d" % (o["out"], o["nc"], o["ns"], o["drawn"]) for o in obs["steps"]]
@@ -1004,6 +1071,7 @@ class Check(PropertyCheck):
         if case["kind"] == "conv": return ("conv", case["v"], case.get("tweak"), case.get("mode"), digest(case["state"]))
         if case["kind"] in ("wsseq", "idseq"): return (case["kind"], json.dumps(case["recs"], sort_keys=True), digest(case["state"]))
         if case["kind"] == "convt": return ("convt", tuple(case["v"]), case.get("tweak"), digest(case["state"]))
+        if case["kind"] == "migfile": return ("migfile", case["file"], case.get("perm_seed"))
         return (case["kind"], case.get("to"), case.get("mode"), case.get("variant"), digest(case["state"]))
 
     def branches(self, case, obs):
@@ -1012,6 +1080,7 @@ class Check(PropertyCheck):
         if case["kind"] == "dumpsplit": return ["dumpsplit:" + os.path.basename(case["file"]) + (":between" if case["between"] else "")]
         if case["kind"] == "conv": return ["conv:v%d" % case["v"], "conv-tweak:%s" % case.get("tweak")]
         if case["kind"] == "convt": return ["convt:%d.%d" % tuple(case["v"]), "convt-tweak:%s" % case.get("tweak")]
+        if case["kind"] == "migfile": return ["migfile:" + os.path.basename(case["file"])]
         if case["kind"] == "wsseq": return ["wsseq"] + sorted({"wsseq:" + r["role"] for r in case["recs"]})
         if case["kind"] == "idseq": return ["idseq"] + (["idseq:via"] if any(r["via"] is not None for r in case["recs"]) else [])
         return [case["kind"] + (":v%d" % case["to"] if case["kind"] == "downgrade" else "")]
